@@ -36,6 +36,8 @@ def main():
     ap.add_argument("--size", default="base")
     a = ap.parse_args()
     os.makedirs(a.out, exist_ok=True)
+    import noise
+    noise.MINIMAL[0] = (a.size == "minimal")
     for e in a.engines.split(","):
         rng = random.Random("%s-%d" % (e, a.seed))
         files = ENGINES[e](rng, a.seed, a.size)
